@@ -262,6 +262,15 @@ func (p *Program) VerifyFunction(u *Universe, fn *ssa.Function) *VC {
 		}
 	}
 	e.run(args, h0, "true")
+	// vacuity guards: the definitions alone, and the definitions together with every
+	// assumption made along the way, must be satisfiable (never refutable)
+	{
+		ob := vc.oblig("cover", "defs", "true", "true", "the definitional part of the encoding is consistent", fn.Pos())
+		ob.Cover = true
+		ob.Pos = 0
+		ob2 := vc.oblig("cover", "assumptions", "true", "true", "all assumptions made in the function (contracts of callees, invariants, type invariants) are jointly consistent", fn.Pos())
+		ob2.Cover = true
+	}
 	if e.con != nil && e.con.HasAssign {
 		// frame check: inferred mod-set must be within the declared assigns
 		allowed, all := p.expandAssigns(u, e.con.Assigns)
